@@ -234,9 +234,14 @@ def run(ctx, chk):
                     if any(k_ in s_[2] for k_ in ('filelen', 'resmap', 'unwrap_or')):
                         lsyms.add(s_)
             sem_ok = False
-            if hrefs and lsyms:
+            rh_ = [c for c in calls if c[1] == 'system::read_header' and c[3] is not None]
+            if rh_ and lsyms:
                 from .. import bvproof as _bp5
-                szs = [(q.ret, q.state.env) for q in ipl.run('cart::Header::get_rom_size_bytes', [hrefs[0]], r.state.copy())
+                # the header this path validated: the Ok payload of read_header (a helper may have moved it since)
+                s5 = r.state.copy()
+                hv_ = ipl.project(s5, ipl.project(s5, rh_[-1][3], ('d', 0, 'Ok')), ('f', 0, '0', 'cart::Header', ''))
+                s5.mem[('O', 'c19.header')] = hv_
+                szs = [(q.ret, q.state.env) for q in ipl.run('cart::Header::get_rom_size_bytes', [('ref', ('O', 'c19.header'), ())], s5)
                        if q.status == 'ok' and q.ret is not None and T.is_int(q.ret)]
                 for L_ in lsyms:
                     L64 = L_ if L_[1] == 64 else O(64, 'zext', L_)
